@@ -1,0 +1,16 @@
+//go:build verif
+
+package imports
+
+// Machine-checked contracts for the gocv verifier (/verif/DESIGN.md). Comments only.
+
+// C19 (regenerated files stay valid Go): getUnusedImports tells a package reference `pkg.X` from a selector on a
+// local variable that shadows the package name by looking at ast.Ident.Obj, which go/parser only fills in when
+// object resolution is ON. Prune must therefore parse with exactly ParseComments|AllErrors (no SkipObjectResolution).
+//@ trusted go/token.NewFileSet() (f)
+//@   pure
+//@ trusted go/parser.ParseFile(fset, filename, src, mode) (f, err)
+//@   pure
+//@ func Prune [C19]
+//@   at! `parser.ParseFile(fset, filename, src, parser.ParseComments|parser.AllErrors)` requires arg3 == parser.ParseComments + parser.AllErrors
+//@   ensures calls(ParseFile) == 1
